@@ -397,6 +397,51 @@ def implPlaceC (cls : View → Bool → PassKind) (sig : Sig) : Placement :=
 /-- where every eightbyte of every argument ends up on the current tree -/
 def implPlace (sig : Sig) : Placement := implPlaceC classifyV sig
 
+/-! ## arm64: `TypeInfoArm64.GetTypeInfo` (no host to execute; tied by in-process classification and clang only)
+
+`SupportByVal() = false` (a large aggregate is passed as a plain pointer to a caller-made copy), `SkipEmptyParams() = true`.
+Sizes and alignments of the universe's scalars are the same as on x86-64, so `View` is shared. -/
+
+inductive PassKind64 where
+  | void                      -- AttrVoid
+  | direct                    -- AttrNone: type unchanged (LLVM passes the leaves of the aggregate one by one)
+  | coerceInt (bytes : Nat)   -- AttrWidthType, result: `IntType(Size*8)`
+  | coerceI64                 -- AttrWidthType, parameter: `i64`
+  | coerceI64x2               -- AttrWidthType: `[2 x i64]`
+  | memory                    -- AttrPointer: pointer to a copy / sret (x8)
+deriving DecidableEq, Repr, Inhabited
+
+def CType.isAgg : CType → Bool
+  | .sc _ => false
+  | _ => true
+
+def isPtrOrI64 : Scalar → Bool
+  | .i64 => true | .ptr => true | _ => false
+
+/-- `checkTypes(types, typ)` -/
+def allEq (l : List Scalar) (s : Scalar) : Bool := l.all (· == s)
+
+/-- "skip (i64/ptr,i64/ptr)": exactly two leaves, each a pointer or an `i64` -/
+def twoPtrOrI64 (types : List Scalar) : Bool :=
+  match types with
+  | [a, b] => isPtrOrI64 a && isPtrOrI64 b
+  | _ => false
+
+def getTypeInfoArm64 (v : View) (isAgg bret : Bool) : PassKind64 :=
+  if !isAgg then .direct                                   -- `switch kind { case Struct, Array: … }` not entered
+  else if bret && v.types.length == 1 then .direct
+  else if twoPtrOrI64 v.types then .direct
+  else if decide (v.types.length ≤ 4) && (allEq v.types .f32 || allEq v.types .f64) then .direct
+  else if v.size > 16 then .memory
+  else if v.size ≤ 8 then (if bret then .coerceInt v.size else .coerceI64)
+  else .coerceI64x2
+
+def classifyArm64V (v : View) (isAgg isRet : Bool) : PassKind64 :=
+  if v.size = 0 then (if isRet then .direct else .void)
+  else getTypeInfoArm64 v isAgg isRet
+
+def classifyArm64 (t : CType) (isRet : Bool) : PassKind64 := classifyArm64V t.view t.isAgg isRet
+
 /-! ## C strings (`runtime/internal/runtime/z_string.go`: `CStrCopy`, `StringFromCStr`, `StringFrom`; `c.Strlen`) -/
 
 abbrev Mem := List UInt8
